@@ -1137,14 +1137,17 @@ def p_qualifier(p):
             parser_token=p)
 
     flavors = _build_flavors(p, flavorlist, qualdecl, qualdecl.name)
-    if qval is None:
-        if qualdecl.type == 'boolean':
-            qval = True
+    try:
+        if qval is None:
+            if qualdecl.type == 'boolean':
+                qval = True
+            else:
+                qval = qualdecl.value  # default value
         else:
-            qval = qualdecl.value  # default value
-    else:
-        qval = cimvalue(qval, qualdecl.type)
-    p[0] = CIMQualifier(qname, qval, type=qualdecl.type, **flavors)
+            qval = cimvalue(qval, qualdecl.type)
+        p[0] = CIMQualifier(qname, qval, type=qualdecl.type, **flavors)
+    except (ValueError, TypeError) as exc:
+        raise _invalid_value(p, exc)
 
     # Note: The propagated flag is not set because this is parsed MOF, which
     # contains specified qualifiers and not propagated qualifiers.
@@ -1183,6 +1186,13 @@ def p_flavor(p):
     p[0] = p[1].lower()
 
 
+def _invalid_value(p, exc):
+    """MOFParseError for a value that does not fit its declared type."""
+    return MOFParseError(
+        msg=_format("Invalid value for the declared type: {0}", exc),
+        parser_token=p)
+
+
 def p_propertyDeclaration(p):
     """propertyDeclaration : propertyDeclaration_1
                            | propertyDeclaration_2
@@ -1203,7 +1213,10 @@ def p_propertyDeclaration_1(p):
 
 def p_propertyDeclaration_2(p):
     """propertyDeclaration_2 : dataType propertyName defaultValue ';'"""
-    p[0] = CIMProperty(p[2], p[3], type=p[1])
+    try:
+        p[0] = CIMProperty(p[2], p[3], type=p[1])
+    except (ValueError, TypeError) as exc:
+        raise _invalid_value(p, exc)
 
 
 def p_propertyDeclaration_3(p):
@@ -1214,8 +1227,11 @@ def p_propertyDeclaration_3(p):
 
 def p_propertyDeclaration_4(p):
     """propertyDeclaration_4 : dataType propertyName array defaultValue ';'"""
-    p[0] = CIMProperty(p[2], p[4], type=p[1], is_array=True,
-                       array_size=p[3])
+    try:
+        p[0] = CIMProperty(p[2], p[4], type=p[1], is_array=True,
+                           array_size=p[3])
+    except (ValueError, TypeError) as exc:
+        raise _invalid_value(p, exc)
 
 
 def p_propertyDeclaration_5(p):
@@ -1228,8 +1244,11 @@ def p_propertyDeclaration_6(p):
     # pylint: disable=line-too-long
     """propertyDeclaration_6 : qualifierList dataType propertyName defaultValue ';'"""  # noqa: E501
     quals = OrderedDict([(x.name, x) for x in p[1]])
-    p[0] = CIMProperty(p[3], cimvalue(p[4], p[2]),
-                       type=p[2], qualifiers=quals)
+    try:
+        p[0] = CIMProperty(p[3], cimvalue(p[4], p[2]),
+                           type=p[2], qualifiers=quals)
+    except (ValueError, TypeError) as exc:
+        raise _invalid_value(p, exc)
 
 
 def p_propertyDeclaration_7(p):
@@ -1243,9 +1262,12 @@ def p_propertyDeclaration_8(p):
     # pylint: disable=line-too-long
     """propertyDeclaration_8 : qualifierList dataType propertyName array defaultValue ';'"""  # noqa: E501
     quals = OrderedDict([(x.name, x) for x in p[1]])
-    p[0] = CIMProperty(p[3], cimvalue(p[5], p[2]),
-                       type=p[2], qualifiers=quals, is_array=True,
-                       array_size=p[4])
+    try:
+        p[0] = CIMProperty(p[3], cimvalue(p[5], p[2]),
+                           type=p[2], qualifiers=quals, is_array=True,
+                           array_size=p[4])
+    except (ValueError, TypeError) as exc:
+        raise _invalid_value(p, exc)
 
 
 def p_referenceDeclaration(p):
@@ -1269,8 +1291,11 @@ def p_referenceDeclaration(p):
         if len(p) == 5:
             dv = p[3]
     quals = OrderedDict([(x.name, x) for x in quals])
-    p[0] = CIMProperty(pname, dv, type='reference',
-                       reference_class=cname, qualifiers=quals)
+    try:
+        p[0] = CIMProperty(pname, dv, type='reference',
+                           reference_class=cname, qualifiers=quals)
+    except (ValueError, TypeError) as exc:
+        raise _invalid_value(p, exc)
 
 
 def p_methodDeclaration(p):
@@ -1591,9 +1616,12 @@ def p_qualifierDeclaration(p):
 
     flavors = _build_flavors(p, flist, None, qualname)
 
-    p[0] = CIMQualifierDeclaration(
-        qualname, dt, value=value, is_array=is_array, array_size=array_size,
-        scopes=scopes, **flavors)
+    try:
+        p[0] = CIMQualifierDeclaration(
+            qualname, dt, value=value, is_array=is_array,
+            array_size=array_size, scopes=scopes, **flavors)
+    except (ValueError, TypeError) as exc:
+        raise _invalid_value(p, exc)
 
 
 def _build_flavors(p, flist, qualdecl, qualname):
@@ -1905,7 +1933,7 @@ def p_instanceDeclaration(p):
                             parser_token=p)
                 pprop.value = cimvalue(pval, cprop.type)
             inst.properties[pname] = pprop
-        except ValueError as ve:
+        except (ValueError, TypeError) as ve:
             raise MOFParseError(
                 msg=_format(
                     "Cannot compile instance of {0!A} because it specifies "
